@@ -54,7 +54,7 @@ claimed = {
  "C19": ("exploration", "bounded exhaustive enumeration of rendered GSD documents (templates x values x lexical variants), grammar-level mutations at every position, and all short token strings",
    "(a) every statement template with boundary hole values (and the dependency chains PrmText->ExtUserPrmData->Ref, Module->Slot, plus one full document) is rendered by an independent pretty-printer in the product of lexical variants (keyword case, '=' spacing, trailing/full-line comments, LF/CRLF, text before the marker incl. '#', line continuations) and the parsed description is compared field by field; (b) every number/string swap, numeric extreme, unknown data type, dangling reference and deleted '(' ')' '=' '-' or line at every position of the generated documents and of mock.gsd; (c) all token strings up to length 5/6 over 14 token classes and all 1-2 byte raw inputs. Oracle: never unwinds; (a) must be Ok and equal.",
    "Trusted: the independent pretty-printer / expected-value logic; long random texts are not covered.", "6 C19"),
- "C06": ("fault_enumeration", "exhaustive fault enumeration (every telegram x fault kind, every corruption window, every crash point x restart/partial-telegram variant, claim race offsets; thorough: also every pair of faults on telegrams n and n+1..3) on snapshots of rings of real stations under staggered and equal poll schedules",
+ "C06": ("fault_enumeration", "exhaustive fault enumeration (every telegram x fault kind, every corruption window, bus cuts, every crash point x restart/partial-telegram variant, crash-then-fault pairs, claim race offsets; thorough: also every pair of faults on telegrams n and n+1..3) on snapshots of rings of real stations under staggered and equal poll schedules and two PHY models (collisions heard corrupted / not heard while transmitting)",
    "Per scenario a ring of real stations is brought up; from a snapshot every fault of the plan is applied once - drop / truncate / bit flips of EVERY telegram in a window of HSA+3 rotations, a 3-telegram garbling window at every position, a crash of every station at every effective poll (before / after incl. mid-transmission, with and without restart after 2 and 40 slot times), and the cold-start claim race - then the run continues fault-free for T_rec and is judged by the C02 ring predicate over the stability window and by the silence bound.",
    "One disturbance episode per execution (quick: one fault; thorough: also two-fault episodes on the Tslot/16 schedules); collisions are corrupted bytes in BusSim; T_rec from DESIGN 5.4.", "6 C06"),
  "C13": ("model_checking", "exhaustive enumeration of ring configurations (incl. lone stations) x application appetites x TTR x poll patterns incl. equal phases (plus every placement of one poll stall: quick on the explicit-TTR configurations of <=3 stations, thorough everywhere) with a trace oracle for hold time, rotation and starvation",
